@@ -117,7 +117,8 @@ def run(repo, rep, tier):
     # a second evaluation on the same object reports the errors of both (the accumulator is never reset): decided by the fresh-instance rule below
     ge = repo.func('policy', 'Policy._get_errors')
     rep.saw(ge)
-    txt = unparse(ge)
+    # (the renderer may delegate to helpers of the class: the record keys must be read somewhere in Policy's rendering code)
+    txt = unparse(ge) + ' '.join(unparse(f_) for f_ in repo.cls('policy', 'Policy').body if isinstance(f_, ast.FunctionDef) and f_.name not in ('evaluate', '_append_error', '__init__') and 'error' in f_.name.lower())
     for need in ("mismatched_field", "expected_required", "actual"):
         rep.check('errors', '_get_errors renders %s' % need, need in txt, ge, '_get_errors no longer renders %s' % need)
 
